@@ -165,7 +165,30 @@ def fam_rec_byref_local(n):
     return pt.Return(f(pt.Int(n)) == pt.Int(py(n))), 5
 
 
+def fam_explicit_return_abi_local(n):
+    """classic value-returning routines that create ABI values in their body (frame locals from v8) and leave through
+    explicit Return(value) statements on every path"""
+    from pyteal import abi
+
+    @pt.Subroutine(pt.TealType.uint64)
+    def clamp_inc(k):
+        a = abi.Uint64()
+        s = abi.String()
+        return pt.Seq(a.set(k), s.set("xyz"), pt.If(a.get() >= pt.Int(10)).Then(pt.Return(pt.Int(10))),
+                      pt.Return(a.get() + pt.Len(s.get()) - pt.Int(2)))
+
+    @pt.Subroutine(pt.TealType.bytes)
+    def tag(k):
+        b = abi.Bool()
+        u = abi.Uint64()
+        return pt.Seq(b.set(k > pt.Int(0)), u.set(k), pt.If(b.get()).Then(pt.Return(pt.Itob(u.get()))).Else(pt.Return(pt.Bytes("zero"))))
+    want = 10 if n >= 10 else n + 1
+    wtag = n.to_bytes(8, "big") if n > 0 else b"zero"
+    return pt.Return(pt.And(clamp_inc(pt.Int(n)) == pt.Int(want), tag(pt.Int(n)) == pt.Bytes(wtag))), 6
+
+
 FAMILIES = {
+    "explicit_return_abi_local": (fam_explicit_return_abi_local, [0, 3, 12]),
     "rec_byref_local": (fam_rec_byref_local, [0, 1, 3]),
     "fact": (fam_fact, [0, 1, 5]),
     "fib_locals": (fam_fib_locals, [0, 1, 2, 7]),
